@@ -58,6 +58,17 @@ let line l =
        let idom = Stdlib.List.map (function A "-" -> None | x -> Some (num_n x)) ds in
        if SsaCheck.ssa_check (r_cfg c) idom then "(valid)" else "(invalid)"
      | _ -> "(badline)")
+  | "ssapre" ->
+    (* ssapre (cfg before SSA) (dominfo (frontier ..) (children ..)) : the hypotheses of the construction theorems *)
+    let rest = Stdlib.String.sub l (sp1 + 1) (Stdlib.String.length l - sp1 - 1) in
+    (match parse_sexp ("(" ^ rest ^ ")") with
+     | L [c; L [A "dominfo"; L (A "frontier" :: _); L (A "children" :: ch)]] ->
+       let nl = Stdlib.List.map (function L xs -> Stdlib.List.map num_n xs | _ -> failwith "dominfo") in
+       let c = r_cfg c in
+       if not (SsaPre.pre_ssa_ok c) then "(pre-ssa-hypotheses-unmet)"
+       else if not (SsaPre.children_coverb (nl ch) (nat_of_int (Stdlib.List.length c.c_blocks))) then "(children-do-not-cover)"
+       else "(pre-ssa-ok)"
+     | _ -> "(badline)")
   | "erasecheck" ->
     (* erasecheck (cfg before SSA) (cfg after SSA) *)
     let rest = Stdlib.String.sub l (sp1 + 1) (Stdlib.String.length l - sp1 - 1) in
